@@ -109,19 +109,42 @@ theorem safe_readBoolean (v : Bytes) (t : Option Tag) (h : Option Header) : Safe
 theorem safe_readEnumerated (v : Bytes) (t : Option Tag) (h : Option Header) : Safe (readEnumerated v t h) := by
   unfold readEnumerated; exact safe_readInteger _ _ _
 
-/-- the content `_validate_tag` returns is a slice of the view: its octets are octets of the input -/
-theorem validateTag_sub {v : Bytes} {e : Option Tag} {t : Tag} {h : Option Header} {c : Bytes} {n : Nat}
-    (hv : validateTag v e t h = .ok (c, n)) : ∀ x ∈ c, x ∈ v := by
+/-- what a successful `_validate_tag` returns: a slice of the view behind the header -/
+theorem validateTag_ok {v : Bytes} {e : Option Tag} {t : Tag} {h : Option Header} {c : Bytes} {n : Nat}
+    (hv : validateTag v e t h = .ok (c, n)) :
+    ∃ hd : Header, c = (v.drop hd.tagLength).take hd.length ∧ n = hd.tagLength + hd.length ∧ hd.length ≤ (v.drop hd.tagLength).length := by
   unfold validateTag at hv
   obtain ⟨hd, _, hv⟩ := bind_ok_iff.mp hv
-  simp only [] at hv
-  by_cases h1 : hd.tag ≠ e.getD (match h with | some h' => h'.tag | none => t)
-  · simp [h1] at hv
-  · by_cases h2 : (v.drop hd.tagLength).length < hd.length
-    · simp [h1, h2] at hv
-    · simp only [h1, h2, if_false] at hv
-      cases hv
-      intro x hx
-      exact List.mem_of_mem_drop (List.mem_of_mem_take hx)
+  cases h with
+  | none =>
+    simp only [ne_eq, ite_not] at hv
+    by_cases h1 : hd.tag = e.getD t
+    · rw [if_pos h1] at hv
+      by_cases h2 : (v.drop hd.tagLength).length < hd.length
+      · rw [if_pos h2] at hv; cases hv
+      · rw [if_neg h2] at hv
+        cases hv
+        exact ⟨hd, rfl, rfl, by omega⟩
+    · rw [if_neg h1] at hv; cases hv
+  | some h0 =>
+    simp only [ne_eq, ite_not] at hv
+    by_cases h1 : hd.tag = e.getD h0.tag
+    · rw [if_pos h1] at hv
+      by_cases h2 : (v.drop hd.tagLength).length < hd.length
+      · rw [if_pos h2] at hv; cases hv
+      · rw [if_neg h2] at hv
+        cases hv
+        exact ⟨hd, rfl, rfl, by omega⟩
+    · rw [if_neg h1] at hv; cases hv
+
+theorem isBytes_take {b : Bytes} (h : IsBytes b) (n : Nat) : IsBytes (b.take n) := fun x hx => h x (List.mem_of_mem_take hx)
+theorem isBytes_drop {b : Bytes} (h : IsBytes b) (n : Nat) : IsBytes (b.drop n) := fun x hx => h x (List.mem_of_mem_drop hx)
+theorem isBytes_sliceN {b : Bytes} (h : IsBytes b) (i j : Nat) : IsBytes (Py.sliceN b i j) := isBytes_drop (isBytes_take h j) i
+
+/-- the content `_validate_tag` returns consists of octets of the view -/
+theorem validateTag_isBytes {v : Bytes} {e : Option Tag} {t : Tag} {h : Option Header} {c : Bytes} {n : Nat}
+    (hb : IsBytes v) (hv : validateTag v e t h = .ok (c, n)) : IsBytes c := by
+  obtain ⟨hd, rfl, _, _⟩ := validateTag_ok hv
+  exact isBytes_take (isBytes_drop hb _) _
 
 end DpapiNg.Asn1
